@@ -283,7 +283,7 @@ theorem kInv_handleMsgs (ms : List Msg) (e : Ep) (hi : KInv e) : KInv (handleMsg
     unfold handleMsgs
     split
     · exact hi
-    · exact ih _ (kInv_handleMsg e m hi)
+    · exact ih _ (kInv_handleMsg _ m (kInv_of_view (e := e) rfl hi))
 
 theorem kInv_recvRaw (e : Ep) (c : Bytes) (hi : KInv e) : KInv (recvRaw e c).1 := by
   unfold recvRaw
